@@ -30,6 +30,11 @@ def fmtZeroPad (n : Nat) (width : Nat) : List Nat :=
   let ds := decDigits n
   List.replicate (width - ds.length) 48 ++ ds
 
+/-- `format!("{:0width$}", x)` for a signed integer: sign-aware zero padding (the sign comes first, zeros fill up to the width) -/
+def fmtZeroPadInt (x : Int) (width : Nat) : List Nat :=
+  if x < 0 then 45 :: (List.replicate (width - 1 - (decDigits x.natAbs).length) 48 ++ decDigits x.natAbs)
+  else fmtZeroPad x.toNat width
+
 /-- `impl From<Decimal> for String` -/
 def toStringDec (prof : Profile) (d : Dec) : Outcome (List Nat) :=
   if d.nfrac = 0 then .ok (fmtInt d.coeff)
